@@ -143,6 +143,22 @@ def gen_pair(rng, case, how):
         whole = gen_dense(rng, dim, n, pts, divisor=True)
         one = whole[int(rng.integers(n))] if rng.integers(2) else whole[0:1]
         return (whole, one) if rng.integers(2) else (one, whole)
+    if how == "oksubset":
+        # compatible operands that are SUBSETS of bigger datasets (a slice, or an index array in another order): irregular
+        # subsets carry the labels of their parents, dense subsets share the parent's sampling points
+        n = int(rng.integers(2, 4))
+        if case.startswith("dense"):
+            pts = [int(rng.integers(2, 5)) for _ in range(dim)]
+            fa, fb = gen_dense(rng, dim, n + 1, pts), gen_dense(rng, dim, n + 1, pts, divisor=True)
+        else:
+            ptss = [[int(rng.integers(2, 5)) for _ in range(dim)] for _ in range(n + 1)]
+            if rng.integers(2):
+                ptss = [ptss[0]] * (n + 1)            # equal numbers of points: a wrong pairing would go unnoticed by shapes
+            fa, fb = gen_irr(rng, dim, ptss), gen_irr(rng, dim, ptss, divisor=True)
+        if rng.integers(2):
+            return fa[1:], fb[1:]
+        perm = np.array([n, 0] + list(range(1, n)))[: n + 1]
+        return fa[perm], fb[perm]
     if how in ("nobs1", "nobs1shared"):
         # one side has a single observation: NumPy would broadcast it
         n = int(rng.integers(2, 4))
@@ -291,7 +307,7 @@ def arithmetic(rep, col, rng, quick):
     run = C.CoqRun("C12", IMPORTS, shard=10)
     todo = []
     cases = ["dense1d", "dense2d", "irr1d", "irr2d"]
-    hows = ["ok", "nobs1shared", "gridlate", "type", "nobs", "npoints", "dim", "grid", "nobs1", "ok"]
+    hows = ["ok", "nobs1shared", "gridlate", "type", "nobs", "npoints", "dim", "grid", "nobs1", "oksubset"]
     n_pairs = 48 if quick else 800
     for i in range(n_pairs):
         case, how = cases[i % 4], hows[(i // 4) % len(hows)]
